@@ -124,6 +124,7 @@ namespace hs
         void op_corrupt(const sim::Op& op);
         void op_foreign_adjacent(const sim::Op& op);
         void op_drain(const sim::Op& op);
+        void op_fill(const sim::Op& op);
         void op_bad(const sim::Op& op);
         void op_bad_block(const sim::Op& op);
         void judge_death(int outcome, const char* what);
